@@ -1,0 +1,37 @@
+//go:build verif
+
+package req
+
+import (
+	"bufio"
+	"bytes"
+
+	"github.com/imroc/req/v3/internal/dump"
+)
+
+// VerifC13Line is one result of textprotoReader.readLine.
+type VerifC13Line struct {
+	Line     []byte
+	IsPrefix bool
+	Err      string // "" when nil
+}
+
+// VerifC13ReadLines drives the readLine variant selected by newTextprotoReader (the dumping
+// one when ds is non-empty, bufio.Reader.ReadLine otherwise) over input with a bufio.Reader
+// of the given size until it returns an error or max calls were made.
+func VerifC13ReadLines(input []byte, bufSize int, ds dump.Dumpers, max int) []VerifC13Line {
+	tp := newTextprotoReader(bufio.NewReaderSize(bytes.NewReader(input), bufSize), ds)
+	var out []VerifC13Line
+	for i := 0; i < max; i++ {
+		l, more, err := tp.readLine()
+		r := VerifC13Line{Line: append([]byte(nil), l...), IsPrefix: more}
+		if err != nil {
+			r.Err = err.Error()
+		}
+		out = append(out, r)
+		if err != nil {
+			break
+		}
+	}
+	return out
+}
